@@ -203,8 +203,11 @@ static void c01_roundtrip(const TypeOps& t, Prepared& p, const std::vector<size_
     auto idf = CASE_ID("C01|" + t.name + "|" + label + "|W:" + w.name);
     if (!R.only.empty() && R.only.compare(0, idf().size(), idf()) != 0) continue;
     progress(idf());
+    const uint64_t misuse0 = g_fd_misuse;
     WOut o = w.run(src.data(), src.size(), std::max(need, total));
     R.add("evaluations");
+    if (g_fd_misuse != misuse0)
+      R.viol("C01|descriptor-misuse|" + w.name, idf(), "the writer used or closed its descriptor after it had been closed (closed twice, or closed by a moved-from object)", detail(t, p.vals[idx[0]]));
     if (o.err) {
       R.outcome(std::string("write-error:") + ename(o.err));
       R.viol("C01|write-failed|" + w.name + "|" + ename(o.err) + "|" + shape(t.sch) + tags(t.sch), idf(),
@@ -227,8 +230,11 @@ static void c01_roundtrip(const TypeOps& t, Prepared& p, const std::vector<size_
       std::vector<std::unique_ptr<Obj>> dst;
       std::vector<void*> dp;
       for (size_t k = 0; k < idx.size(); k++) { dst.emplace_back(new Obj(t)); dp.push_back(dst.back()->p); }
+      const uint64_t misuse0 = g_fd_misuse;
       RIn in = r.run(bytes.data(), bytes.size(), dp.data(), dp.size());
       R.add("evaluations");
+      if (g_fd_misuse != misuse0)
+        R.viol("C01|descriptor-misuse|" + r.name, idf(), "the reader used or closed its descriptor after it had been closed (closed twice, or closed by a moved-from object)", detail(t, p.vals[idx[0]]));
       if (bytes.size() > 1) R.nontrivial(idf());
       std::string why;
       if (in.err) {
